@@ -401,3 +401,45 @@ prop("C19",
      technique="bounded-exhaustive enumeration of (cost model x options) on the real sample loop in tuning mode; reference tuner re-evaluated on the logged clock readings (round sizes, threshold round, kept samples, stale data)",
      text="For every cost model and option set the real loop is run with automatic sample size; the reference tuner over the logged reads requires round sizes 1,2,4,... until the first round whose slowest sample measures more than 100 whole multiples of the precision, that size for all later rounds, recorded samples = threshold round onwards with tallies and per-input counter values of earlier rounds gone, and the max_time rule applied to elapsed time including the tuning rounds.",
      note=LOOP_NOTE, engine="S+L")
+
+
+Z_NOTE = "Trusted: the zoo generator and its reference model (lib/zoogen.py, lib/zoofam.py), the zoo runtime (invocation log, entry dump through the public __private lists and the verif views), the output parser in lib/zoo.py. Locations are predicted for one canonical layout (attribute on its own line, item on the next), as tests/entry_properties.rs pins it."
+
+prop("C12",
+     quick=[{"engine": "Z", "prop": "C12"}],
+     thorough=[{"engine": "Z", "prop": "C12", "zoo_tier": "thorough"}],
+     assumptions=[
+         "programs: the bounded grammar of lib/zoogen.py (item forms x placements, exhaustively within the tier's bound), not random crates; programs that do not compile (e.g. names differing only in case in one module) are outside the grammar",
+         "link / constructor order cannot be enumerated by a black-box run; order independence of tree construction is decided at function level by the permutation check of C13's engine-S run (every permutation of the entry lists)",
+     ],
+     technique="bounded-exhaustive program enumeration (one generated crate holding every item form x placement) compiled with the real macros; black-box comparison of the entry lists, --list tree, terse listing and --test invocation log with the generator's reference model",
+     text="Every form of #[divan::bench] / #[divan::bench_group] item of the grammar at every placement is compiled with the real macros; the registered entries (module path, raw and display name, file/line/column, ignore and sample options, argument labels, generic type x const matrix), the --list tree, the terse listing and the invocation log of a full test run must each equal the prediction: one runnable benchmark per types x consts combination and one case per args value, nothing else, nothing twice, empty lists registering nothing, args expressions evaluated once.",
+     note=Z_NOTE, engine="Z")
+
+
+prop("C14",
+     quick=[{"engine": "Z", "prop": "C14"}],
+     thorough=[{"engine": "Z", "prop": "C14", "zoo_tier": "thorough"}],
+     assumptions=[
+         "programs: the zoo grammar (see C12) including the ignore family: ignore set directly (option and attribute), inherited from a group, from an outer group through a plain module and through an inner group, overridden to false on a benchmark and on an inner group, re-ignored below",
+         "configurations: 40 filter sets (quick; the thorough tier uses a third of ~400) x {no flag, --ignored, --include-ignored}; the --exact feed-back is run for every listed path",
+     ],
+     technique="bounded-exhaustive black-box runs of the generated crate: terse listing vs. test run vs. --list vs. Divan::list_benches for every (filter set, ignore flag), invocation log as the 'ran anything' oracle, --exact feed-back of every listed path",
+     text="For every filter set and ignore flag the zoo is run as `--list --format terse` (under NEXTEST=1), `--test` and `--list`; listing runs must leave the invocation log empty (no benchmarked function, generator, counter or destructor), the terse output must be exactly one `path: benchmark` line per case the test run executed, and every listed path fed back as the only --exact filter must execute exactly that case. Divan::list_benches is exercised through the zoo's builder switch.",
+     note=Z_NOTE, engine="Z")
+
+prop("C17",
+     quick=[{"engine": "Z", "prop": "C17"}],
+     thorough=[{"engine": "Z", "prop": "C17", "zoo_tier": "thorough"}],
+     assumptions=[
+         "argument kinds of the grammar: array literal, slice const, range, Vec<String>, [&str; N], &[&str], [String; N], Vec<Cow<str>>, [f64; N], chars, a Debug-only type; lengths 0,1,2,3,4,21,30 (the larger ones and several kinds in the thorough zoo only); types x consts in both generic orders",
+         "filters keeping strict subsets: every single argument and every all-but-one for the first 6 labels, under 6 sorts for the full list (2 sorts per subset in quick)",
+     ],
+     technique="bounded-exhaustive black-box runs of the generated crate: every case alone via --exact, whole families under every sort x argument-subset filter, comparing the label with the value / type / const the body received (invocation log) and display order with invocation order",
+     text="Every case with an argument, type or const is run alone (`--test --exact <path>`) and its body must log exactly the argument whose rendering is the label, the type so named and the const so printed; families with runtime arguments are run under 6 sort orders and under filters keeping single arguments and all-but-one, where the k-th displayed row must be the k-th invocation with the labelled value; args expressions are evaluated once per process and shared by generic instantiations.",
+     note=Z_NOTE, engine="Z")
+
+# end-to-end slices through the command line
+PROPS["C13"]["quick"].append({"engine": "Z", "prop": "C13"})
+PROPS["C13"]["thorough"].append({"engine": "Z", "prop": "C13", "zoo_tier": "thorough"})
+META["C13"]["engine"] = "S+Z"
